@@ -125,8 +125,9 @@ def _sig_sticky_escapes(case: dict, f: Failure) -> bool:
     direct = opts.fmt(case["text"], o2)
     via = opts.fmt(first, o2)
     esc = re.compile(r"\\(?=[-=*_`~>#+.)\[|:\\])")
-    if "".join(via.replace(">", "").split()) == "".join(direct.replace(">", "").split()):
-        return False  # the same backslashes in both: the difference is not one of protecting escapes
+    escaped = re.compile(r"\\([-=*_`~>#+.)\[|:\\])")  # the characters that carry a protecting backslash, in order
+    if escaped.findall(via) == escaped.findall(direct):
+        return False  # the same protecting backslashes in both: the difference is not one of escapes
 
     def norm(t: str) -> str:
         # quote prefixes and all blanks are dropped (a '>' may also be a word of the text: dropped on both sides alike)
